@@ -106,6 +106,7 @@ struct BuildMark {
     nested_len: usize,
     input_len: usize,
     src_len: usize,
+    hp_len: usize,
     fs_len: usize,
     cs_len: usize,
     di_len: usize,
@@ -403,6 +404,7 @@ impl State {
             nested_len: self.nested.len(),
             input_len: self.input.len(),
             src_len: self.sources.len(),
+            hp_len: self.heap.len(),
             fs_len: self.flow_stack.len(),
             cs_len: self.code.len(),
             di_len: self.dict.len(),
@@ -424,6 +426,8 @@ impl State {
         self.code.truncate(mark.cs_len);
         self.debug_map.truncate(mark.cs_len);
         self.dict.truncate(mark.di_len);
+        // the cells of its variables are unreachable now, free them
+        self.heap.truncate(mark.hp_len);
         self.data_stack.truncate(mark.ds_len);
         self.return_stack.truncate(mark.rs_len);
         self.loops.truncate(mark.ls_len);
